@@ -125,11 +125,22 @@ def _attr_tree(text: str):
     dec = reader.decode(text)
     if dec.error or not dec.shape.editable:
         return None
+    def rec_paths(members, pre=()):
+        out = []
+        for m in members:
+            if m[0] == "b" and m[2][0] == "set":
+                path = pre + tuple(m[1])
+                if m[2][1]:
+                    out.append(path)
+                out.extend(rec_paths(m[2][2], path))
+        return out
+
     def one(members):
         tree, dups = reader.flatten(members)
-        return (tuple(sorted((k, v) for k, v in tree.items())), tuple(sorted(dups)))  # a doubly defined attribute is a different tree
+        # a doubly defined attribute is a different tree; so is a set that gained or lost its `rec`
+        return (tuple(sorted((k, v) for k, v in tree.items())), tuple(sorted(dups)), tuple(sorted(rec_paths(members))))
 
-    return (tuple(one(l) for l in dec.layers), one(dec.target))
+    return (tuple(one(l) for l in dec.layers), one(dec.target), bool(dec.rec))
 
 
 def execute(case: dict):
